@@ -236,6 +236,15 @@ func TestVerifC14PowerLoss(t *testing.T) {
 			r = rapid.SampledFrom([]int{0, 1, 1, 1, 1, 1, 1, 1, 2, 2, 3, 4, 6}).Draw(rt, "crashCall")
 		}
 		pct := rapid.SampledFrom([]int{0, 0, 50, 50, 100}).Draw(rt, "unsyncedPercent")
+		if h.Ops[j].Kind == "reopen" && pct == 50 {
+			// Fault-model limit: Pebble's own Open creates the new MANIFEST and
+			// its marker file and syncs the directory once afterwards; a crash
+			// image that keeps an arbitrary subset of those unsynced directory
+			// entries (marker without MANIFEST) makes pebble.Open itself fail.
+			// Journaling file systems persist directory entries in order, so
+			// inside close+reopen only "none" or "all" unsynced data is kept.
+			pct = rapid.SampledFrom([]int{0, 100}).Draw(rt, "unsyncedPercentReopen")
+		}
 		seed := rapid.Uint64().Draw(rt, "cloneSeed")
 		reopenOpts := verifC14GenOpen(rt)
 		qs := verifC14GenQueries(rt, 3)
